@@ -93,6 +93,19 @@ impl Ctx {
         *self.rep.counters.entry(k.into()).or_default() += n;
     }
 
+    /// The oracle could not evaluate a generated type. A reference with the wrong number of type
+    /// arguments or to a name no declaration binds is a fact about the generated TypeScript (ill-formed),
+    /// not a gap of the oracle: it counts as a violation; anything else is a machinery error.
+    fn oracle_error(&mut self, check: &str, e: &tsmodel::Unsupported, context: String) {
+        let ill_formed = e.0.starts_with("too many type arguments") || e.0.starts_with("missing type argument") || e.0.starts_with("unbound type name");
+        if ill_formed {
+            self.violation("generated-type-is-ill-formed", json!({"while_checking": check, "problem": e.0, "context": context}));
+        } else {
+            self.count("oracle_unknown_construct", 1);
+            self.rep.machinery_errors.push(format!("{}: {check}: {e:?} {context}", self.case_id));
+        }
+    }
+
     pub fn violation(&mut self, check: &str, detail: Value) {
         let mut class = self.case_class.clone();
         class["check"] = json!(check);
@@ -248,10 +261,7 @@ impl Ctx {
                         "serialized-value-not-in-declared-type",
                         json!({"type": label, "via": what, "json": j, "ts": T::name(), "decl": guarded(T::decl).ok()}),
                     ),
-                    Err(e) => {
-                        self.count("oracle_unknown_construct", 1);
-                        self.rep.machinery_errors.push(format!("{}: {label}: {e:?}", self.case_id));
-                    }
+                    Err(e) => self.oracle_error(label, &e, String::new()),
                 }
             }
         }
@@ -287,7 +297,7 @@ impl Ctx {
         let mut cands = match tsmodel::witnesses(&env, ty, &self.wcfg(), &mut st) {
             Ok(w) => w,
             Err(e) => {
-                self.rep.machinery_errors.push(format!("{}: {label}: {e:?}", self.case_id));
+                self.oracle_error(label, &e, String::new());
                 return;
             }
         };
@@ -453,10 +463,7 @@ impl Ctx {
                 check,
                 json!({"left": l, "right": r, "distinguishing_value": d.value, "in_left": d.in_left, "in_right": d.in_right}),
             ),
-            Err(e) => {
-                self.count("oracle_unknown_construct", 1);
-                self.rep.machinery_errors.push(format!("{}: {check}: {e:?} ({l} / {r})", self.case_id));
-            }
+            Err(e) => self.oracle_error(check, &e, format!("({l} / {r})")),
         }
     }
 
@@ -570,7 +577,7 @@ impl Ctx {
                         "serialized-library-value-not-in-reported-type",
                         json!({"type": label, "via": what, "json": j, "ts": guarded(T::name).ok()}),
                     ),
-                    Err(e) => self.rep.machinery_errors.push(format!("{}: {label}: {e:?}", self.case_id)),
+                    Err(e) => self.oracle_error(label, &e, String::new()),
                 }
             }
         }
@@ -584,7 +591,7 @@ impl Ctx {
         let ws = match tsmodel::witnesses(&env, &tys[0].1, &self.wcfg(), &mut st) {
             Ok(w) => w,
             Err(e) => {
-                self.rep.machinery_errors.push(format!("{}: {label}: {e:?}", self.case_id));
+                self.oracle_error(label, &e, String::new());
                 return;
             }
         };
